@@ -1,9 +1,72 @@
 import CotengraVerif.Driver.Util
+import CotengraVerif.Model.Paths
 
 namespace Cotengra.Driver.C10
-open Lean Cotengra Cotengra.Driver
+open Lean Cotengra Cotengra.Driver Cotengra.Paths
 
-/-- ops of property C10 (name them "c10.<op>") -/
-def handlers : List (String × Handler) := []
+def jPathOpt : Option Path → Json
+  | none => jObj [("ok", jBool false)]
+  | some p => jObj [("ok", jBool true), ("path", jNatss p)]
+
+def optN (j : Json) (path : Path) : Nat :=
+  match j.getObjVal? "n" with
+  | .ok (.num _) => (j.getObjVal? "n" >>= (·.getNat?)).toOption.getD (defaultN path)
+  | _ => defaultN path
+
+def linearToSsaOp : Handler := fun j => do
+  let p ← natListList (← field j "path")
+  pure (jPathOpt (linearToSsa (optN j p) p))
+
+def ssaToLinearOp : Handler := fun j => do
+  let p ← natListList (← field j "path")
+  pure (jPathOpt (ssaToLinear (optN j p) p))
+
+def edgeToSsaOp : Handler := fun j => do
+  let e ← natList (← field j "edge_path")
+  let inputs ← natListList (← field j "inputs")
+  pure (jPathOpt (edgePathToSsa e inputs))
+
+/-- all subtrees -/
+def subtrees : BT → List BT
+  | .leaf i => [.leaf i]
+  | .node l r => subtrees l ++ subtrees r ++ [.node l r]
+
+def key (x : BT) : List Nat := sortAsc x.leaves
+
+def findNode (t : BT) (ls : List Nat) : Except String BT :=
+  match (subtrees t).find? (fun x => key x == sortAsc ls) with
+  | some x => pure x
+  | none => throw "no such node"
+
+def jNodes (l : List BT) : Json := jNatss (l.map key)
+
+/-- op `c10.tree`: traversals of the model, paths for a given (real) traversal, certificate -/
+def treeOp : Handler := fun j => do
+  let t ← btOf (← field j "tree")
+  let n := t.leaves.length
+  let table ← (← arrOf (fieldD j "scores" (jArr []))).mapM fun row => do
+    match ← arrOf row with
+    | [ls, sc] => pure (sortAsc (← natList ls), ← natOf sc)
+    | _ => throw "score row"
+  let order : BT → Nat := fun x => (table.lookup (key x)).getD 0
+  let seq ← (← arrOf (fieldD j "seq" (jArr []))).mapM fun ls => do findNode t (← natList ls)
+  pure (jObj [("dfs", jNodes (traverseDfs t)), ("ordered", jNodes (traverseOrdered t order)),
+              ("cf_ok", jBool (cfCheck t seq)),
+              ("ssa_path", jPathOpt (getSsaPath n seq)), ("path", jPathOpt (getPath n seq))])
+
+def jFrom : Option (List (List Nat) × List (List Nat)) → Json
+  | none => jObj [("ok", jBool false)]
+  | some (ps, left) => jObj [("ok", jBool true), ("parents", jNatss ps), ("left", jNatss left)]
+
+/-- op `c10.from_path` -/
+def fromPathOp : Handler := fun j => do
+  let p ← natListList (← field j "path")
+  let n ← natOf (← field j "n")
+  let ssa ← (← field j "ssa").getBool?
+  pure (jFrom (if ssa then fromSsaPath n p else fromLinearPath n p))
+
+def handlers : List (String × Handler) :=
+  [("c10.linear_to_ssa", linearToSsaOp), ("c10.ssa_to_linear", ssaToLinearOp),
+   ("c10.edge_to_ssa", edgeToSsaOp), ("c10.tree", treeOp), ("c10.from_path", fromPathOp)]
 
 end Cotengra.Driver.C10
